@@ -36,7 +36,7 @@ class OsuNoteMeta:
         Returns:
             The actual column value, starting from 0
         """
-        return max(min(int(x_axis // (512 / keys)), keys - 1), 0)
+        return max(min(int(x_axis * keys // 512), keys - 1), 0)
 
     @staticmethod
     def column_to_x_axis(column: float, keys: int) -> int:
